@@ -16,6 +16,8 @@ from kappadata.datasets import KDConcatDataset, KDDataset, KDSubset, KDWrapper
 from vlib import treg
 from vlib.core import Case, Facet, Refused, Violation
 
+# thorough-tier budgets of every facet are multiplied by this factor (sized for ~5-8 min on 16 cores)
+THOROUGH_SCALE = 5
 LEVEL = "exploration"
 RULE = ("spec = dataset stack (transform / multi-view / semseg / MUGS / BYOL wrappers with registry transform compositions incl. "
         "scheduled, KDImageFolder with a transform over a 4-image folder, roots with registered collators (mix, DINO mask, I-JEPA "
